@@ -796,3 +796,11 @@ CHECKS['C11']['level_text'] = CHECKS['C11']['level_text'] + (" SHARED WRITE BATC
 
 CHECKS['C14']['level_text'] = CHECKS['C14']['level_text'] + (" WRITE-BACK CACHE: over the pinned order of Backup (HyperLogLog cache flushed before the checkpoint request is queued) and reOpenEng (fresh cache "
     "after every restore): C14_backup_sees_cached_writes — what the checkpoint is taken of is the logical content incl. every dirty cache entry; C14_restore_forgets_cache.")
+
+# C03 (and C02): the quorum index of raft.maybeCommit over exactly the current voters (Gen/QuorumIndex.lean, Props/C03Quorum.lean)
+_p = CHECKS['C03']['props']
+CHECKS['C03']['props'] = (_p if isinstance(_p, list) else [_p]) + ['ZanVerif.Props.C03Quorum']
+CHECKS['C03']['gens'] = CHECKS['C03']['gens'] + ['QuorumIndex']
+CHECKS['C03']['level_text'] = CHECKS['C03']['level_text'] + (" QUORUM INDEX (Props/C03Quorum): over the pinned statement list of raft.maybeCommit (buffer re-sized to the current voters on every call, "
+    "sorted, entry at len - quorum()) and the regenerated quorum(): C03_quorum_index_has_quorum — for every voter count and all Match values at least quorum() of the CURRENT voters store the index a leader commits; "
+    "witness of the seeded stale-slot variant (C03-m4).")
